@@ -119,6 +119,9 @@ func Conform(sc *Scenario, rootName string, labels []string) (steps int, blocks 
 			// the explorer ran the whole module manager's end-blocker at this height; real ABCI does the same
 			advance(h)
 		case op.Kind == "skip":
+		case op.Kind == "regenesis" && op.Custom != nil:
+			// environment move on the modules' state: performed on the real application's deliver state as well
+			op.Custom(wr, wr.DeliverCtx(h))
 		default:
 			return fmt.Errorf("step %d (%s): custom op not supported by conformance", step, op.Label)
 		}
